@@ -86,6 +86,7 @@ type Task struct {
 	nchild  int
 	state   int
 	blockOn string
+	WaitsOn any // *Mutex or *RWMutex the task is blocked on (nil otherwise)
 	Start   int // step at which the task first ran
 	End     int // step at which it finished (0 = not finished)
 }
@@ -652,8 +653,10 @@ func (m *Mutex) Lock() {
 		m.waiters = append(m.waiters, t)
 		t.state = stBlocked
 		t.blockOn = "mutex"
+		t.WaitsOn = m
 		s.mu.Unlock()
 		<-t.wake // released by Unlock→ready→driver
+		t.WaitsOn = nil
 	}
 }
 func (m *Mutex) TryLock() bool {
@@ -693,6 +696,8 @@ func (m *Mutex) Unlock() {
 
 type RWMutex struct {
 	real    sync.RWMutex
+	Holder  *Task   // writer, if any
+	RHolders []*Task // current readers
 	writer  bool
 	readers int
 	waiters []*Task
@@ -706,19 +711,23 @@ func (m *RWMutex) acquire(write bool) {
 		s.mu.Lock()
 		if write && !m.writer && m.readers == 0 {
 			m.writer = true
+			m.Holder = t
 			s.mu.Unlock()
 			return
 		}
 		if !write && !m.writer {
 			m.readers++
+			m.RHolders = append(m.RHolders, t)
 			s.mu.Unlock()
 			return
 		}
 		m.waiters = append(m.waiters, t)
 		t.state = stBlocked
 		t.blockOn = "rwmutex"
+		t.WaitsOn = m
 		s.mu.Unlock()
 		<-t.wake
+		t.WaitsOn = nil
 	}
 }
 func (m *RWMutex) release(write bool) {
@@ -730,12 +739,20 @@ func (m *RWMutex) release(write bool) {
 			panic("sync: Unlock of unlocked RWMutex")
 		}
 		m.writer = false
+		m.Holder = nil
 	} else {
 		if m.readers <= 0 {
 			s.mu.Unlock()
 			panic("sync: RUnlock of unlocked RWMutex")
 		}
 		m.readers--
+		t := s.tasks[goid()]
+		for i, h := range m.RHolders {
+			if h == t {
+				m.RHolders = append(m.RHolders[:i], m.RHolders[i+1:]...)
+				break
+			}
+		}
 	}
 	for _, w := range m.waiters {
 		w.state = stReady
@@ -909,6 +926,22 @@ func (s *Sim) BlockedTasks() []*Task {
 
 // BlockOn reports what a task is waiting for ("mutex", "rwmutex", "waitgroup", "native", ...).
 func (t *Task) BlockOn() string { return t.blockOn }
+
+// HoldersOf returns the tasks holding the lock a task is waiting for.
+func HoldersOf(t *Task) []*Task {
+	switch l := t.WaitsOn.(type) {
+	case *Mutex:
+		if l.Holder != nil {
+			return []*Task{l.Holder}
+		}
+	case *RWMutex:
+		if l.Holder != nil {
+			return []*Task{l.Holder}
+		}
+		return append([]*Task(nil), l.RHolders...)
+	}
+	return nil
+}
 
 // HashString is a convenience FNV hash for harness code.
 func HashString(s string) uint64 {
